@@ -25,6 +25,7 @@ type Config struct {
 	Solver        string        // incremental solver kind
 	Concrete      map[string][]uint64 // concrete assignment (translator validation mode); nil = symbolic
 	Trace         bool
+	Thorough      bool
 	ScriptDir     string // where standalone obligation scripts are written
 	TagTimeout    time.Duration
 }
@@ -102,6 +103,9 @@ type HarnessResult struct {
 	TagObls       int
 	TagDischarged int
 	Stubs         map[string]int
+	Cuts          map[string]int
+	Summaries     map[string]int
+	InputNames    map[string]int // nondet variable name -> width (0 = bool), over all paths
 }
 
 type ObserveRec struct {
@@ -143,6 +147,12 @@ type Engine struct {
 	solverPC []int
 
 	jobs []*oblJob
+	summaries map[string]Value           // function-name suffix -> replacement closure (per path)
+	sumCache  map[*ssa.Function]Value
+	inSummary bool
+	pendingCuts map[string]cutSpec
+	cuts        map[string]*cutState
+	cutCache    map[*ssa.Function]map[token.Pos]string
 	fnInfos map[*ssa.Function]*fnInfo
 	allInputs map[string]*Term
 }
@@ -172,10 +182,13 @@ func NewEngine(ld *Loaded, cfg Config) *Engine {
 	if cfg.Solver == "" {
 		cfg.Solver = "z3"
 	}
+	if cfg.ScriptDir == "" {
+		cfg.ScriptDir = os.Getenv("VERIF_SCRIPTDIR")
+	}
 	if cfg.TagTimeout == 0 {
 		cfg.TagTimeout = 60 * time.Second
 	}
-	return &Engine{prog: ld.Prog, ld: ld, cfg: cfg, fnInfos: map[*ssa.Function]*fnInfo{}, allInputs: map[string]*Term{}}
+	return &Engine{prog: ld.Prog, ld: ld, cfg: cfg, fnInfos: map[*ssa.Function]*fnInfo{}, allInputs: map[string]*Term{}, cutCache: map[*ssa.Function]map[token.Pos]string{}}
 }
 
 func (e *Engine) posStr(p token.Pos) string {
@@ -515,6 +528,12 @@ func (e *Engine) submit(st *OblStat, nc *Term, msg string) {
 	asserts := append(append([]*Term(nil), e.pc...), nc)
 	vars := append([]*Term(nil), e.inputVars()...)
 	j := &oblJob{st: st, msg: msg, pos: e.callerPos(), stack: e.stackStrings(), script: Script(e.ts, asserts, vars), vars: vars, tag: e.tag, timeout: e.cfg.TagTimeout, done: make(chan struct{})}
+	if len(e.cuts) > 0 {
+		j.asserts = asserts
+		for _, c := range e.cuts {
+			j.cuts = append(j.cuts, c)
+		}
+	}
 	e.jobs = append(e.jobs, j)
 	e.res.TagObls++
 	go runPortfolio(j)
@@ -534,6 +553,11 @@ func (e *Engine) collect() {
 				e.res.Samples = append(e.res.Samples, fmt.Sprintf("[one-shot %s] %s: unsat in %v", j.solver, j.msg, j.el.Round(time.Millisecond)))
 			}
 		case Sat:
+			if len(j.cuts) > 0 && !e.refineCut(j) {
+				j.st.Unknown++
+				e.res.Inconclusives = append(e.res.Inconclusives, Inconclusive{Harness: e.res.Harness, Reason: "cut-spurious or unrefinable counterexample under a cut: " + j.msg, Pos: j.pos})
+				continue
+			}
 			j.st.Violated++
 			saved := e.inputs
 			e.inputs = j.vars
@@ -607,18 +631,23 @@ func (e *Engine) resetPath() {
 	e.inputs = nil
 	e.inputSet = map[string]bool{}
 	e.tag = ""
+	e.ts.Plain = false
 	e.unwind = e.cfg.Unwind
 	e.stack = e.stack[:0]
 	e.tolerant = 0
 	e.hostState = map[string]any{}
 	e.unknownBranch = false
+	e.summaries = map[string]Value{}
+	e.sumCache = map[*ssa.Function]Value{}
+	e.pendingCuts = map[string]cutSpec{}
+	e.cuts = map[string]*cutState{}
 }
 
 // Explore runs all paths of harness fn.
 func (e *Engine) Explore(fn *ssa.Function) (res *HarnessResult) {
 	t0 := time.Now()
 	e.ts = NewTerms()
-	e.res = &HarnessResult{Harness: fn.Name(), Obls: map[string]*OblStat{}, Reached: map[string]int{}, Funcs: map[string]bool{}, Stubs: map[string]int{}}
+	e.res = &HarnessResult{Harness: fn.Name(), Obls: map[string]*OblStat{}, Reached: map[string]int{}, Funcs: map[string]bool{}, Stubs: map[string]int{}, InputNames: map[string]int{}, Cuts: map[string]int{}, Summaries: map[string]int{}}
 	res = e.res
 	if !e.concreteMode() {
 		s, err := NewSolver(e.cfg.Solver, e.ts, e.cfg.QueryTimeout)
